@@ -11,9 +11,32 @@ from . import core
 WORKERS = {}
 
 
+CASE_TIMEOUT_S = 120
+
+
+class CaseTimeout(Exception):
+    pass
+
+
+def _alarm(signum, frame):
+    raise CaseTimeout()
+
+
 def _call(task):
+    """one case under a wall-clock alarm: a case that does not finish is a reportable outcome
+    (signature case-timeout), never a stuck run."""
+    import signal
     name, case = task
-    return WORKERS[name](case)
+    old = signal.signal(signal.SIGALRM, _alarm)
+    signal.setitimer(signal.ITIMER_REAL, CASE_TIMEOUT_S)
+    try:
+        return WORKERS[name](case)
+    except CaseTimeout:
+        return {"key": core.digest(case), "nontrivial": True, "outcome": "timeout", "transitions": 1,
+                "problems": [("case-timeout:%s" % name, "case did not finish within %d s: %r" % (CASE_TIMEOUT_S, case))]}
+    finally:
+        signal.setitimer(signal.ITIMER_REAL, 0)
+        signal.signal(signal.SIGALRM, old)
 
 
 def run_cases(name, cases, cov, found, deadline=None, sample_every=997, chunk=None, level=None):
